@@ -64,46 +64,55 @@ Definition unserialize_lru (lru : str) : list str :=
 Definition url_to_lru (e : env) (t : snode) (url : str) (suffix_aware : bool) : res str :=
   let* st := lru_stems e t url suffix_aware in Ok (serialize_lru st).
 
-(* lru_to_url on a stem list; stem.split(":", 1) with no ':' raises ValueError (unpacking) *)
-Fixpoint index_stems (stems : list str) (idx : list (N * str)) : res (list (N * str)) :=
+(* lru_to_url on a stem list; stem.split(":", 1) with no ':' raises ValueError (unpacking).
+   The stems index is a dict read at the eight keys s t h p q f u w only: a record of eight optional fields
+   (any other tag is stored under a key that is never read). *)
+Record lidx := { i_s : option str; i_t : option str; i_h : option str; i_p : option str;
+                 i_q : option str; i_f : option str; i_u : option str; i_w : option str }.
+Definition lidx0 : lidx :=
+  {| i_s := None; i_t := None; i_h := None; i_p := None; i_q := None; i_f := None; i_u := None; i_w := None |}.
+
+Definition index_one (ix : lidx) (tg value : str) : lidx :=
+  match tg with
+  | [115] => {| i_s := Some value; i_t := i_t ix; i_h := i_h ix; i_p := i_p ix; i_q := i_q ix; i_f := i_f ix; i_u := i_u ix; i_w := i_w ix |}
+  | [116] => {| i_s := i_s ix; i_t := Some value; i_h := i_h ix; i_p := i_p ix; i_q := i_q ix; i_f := i_f ix; i_u := i_u ix; i_w := i_w ix |}
+  | [104] => {| i_s := i_s ix; i_t := i_t ix;
+                i_h := Some (match i_h ix with Some o => value ++ [46] ++ o | None => value end);
+                i_p := i_p ix; i_q := i_q ix; i_f := i_f ix; i_u := i_u ix; i_w := i_w ix |}
+  | [112] => {| i_s := i_s ix; i_t := i_t ix; i_h := i_h ix;
+                i_p := Some (match i_p ix with Some o => o ++ [47] ++ value | None => value end);
+                i_q := i_q ix; i_f := i_f ix; i_u := i_u ix; i_w := i_w ix |}
+  | [113] => {| i_s := i_s ix; i_t := i_t ix; i_h := i_h ix; i_p := i_p ix; i_q := Some value; i_f := i_f ix; i_u := i_u ix; i_w := i_w ix |}
+  | [102] => {| i_s := i_s ix; i_t := i_t ix; i_h := i_h ix; i_p := i_p ix; i_q := i_q ix; i_f := Some value; i_u := i_u ix; i_w := i_w ix |}
+  | [117] => {| i_s := i_s ix; i_t := i_t ix; i_h := i_h ix; i_p := i_p ix; i_q := i_q ix; i_f := i_f ix; i_u := Some value; i_w := i_w ix |}
+  | [119] => {| i_s := i_s ix; i_t := i_t ix; i_h := i_h ix; i_p := i_p ix; i_q := i_q ix; i_f := i_f ix; i_u := i_u ix; i_w := Some value |}
+  | _ => ix
+  end.
+
+Fixpoint index_stems (stems : list str) (ix : lidx) : res lidx :=
   match stems with
-  | [] => Ok idx
+  | [] => Ok ix
   | st :: r =>
       match cut (length st) [58] st [] with
       | None => Exc ValueError
-      | Some (tg, value) =>
-          let key := match tg with [c] => c | _ => 0 end in   (* tags other than one letter never collide with s t h p q f u w *)
-          let single := match tg with [_] => true | _ => false end in
-          let old := if single then (fix find (l : list (N * str)) := match l with [] => None | (k, v) :: l' => if k =? key then Some v else find l' end) idx else None in
-          let nv :=
-            match old with
-            | Some o => if key =? 104 then value ++ [46] ++ o          (* h: prepend label *)
-                        else if key =? 112 then o ++ [47] ++ value     (* p: append segment *)
-                        else value
-            | None => value
-            end in
-          let idx' := if single then (key, nv) :: filter (fun kv => negb (fst kv =? key)) idx else idx in
-          index_stems r idx'
+      | Some (tg, value) => index_stems r (index_one ix tg value)
       end
   end.
 
-Definition idx_get (k : N) (idx : list (N * str)) : option str :=
-  (fix find (l : list (N * str)) := match l with [] => None | (k', v) :: l' => if k' =? k then Some v else find l' end) idx.
-
-Definition lru_to_url_stems (stems : list str) : res str :=
-  let* idx := index_stems stems [] in
-  let sch := match idx_get 115 idx with Some s => s | None => [] end in
+Definition url_of_index (ix : lidx) : str :=
+  let sch := oget (i_s ix) in
   let nl :=
-    match idx_get 117 idx, idx_get 119 idx with
+    match i_u ix, i_w ix with
     | None, None => []
     | u, w => oget u ++ (match w with Some x => [58] ++ x | None => [] end) ++ [64]
     end in
-  let nl := nl ++ match idx_get 104 idx with Some h => h | None => [] end in
-  let nl := match idx_get 116 idx with Some t => nl ++ [58] ++ t | None => nl end in
-  let pth := match idx_get 112 idx with Some p => 47 :: p | None => [] end in
-  let q := match idx_get 113 idx with Some s => s | None => [] end in
-  let f := match idx_get 102 idx with Some s => s | None => [] end in
-  Ok (urlunsplit {| scheme := sch; netloc := nl; path := pth; query := q; fragment := f |}).
+  let nl := nl ++ oget (i_h ix) in
+  let nl := match i_t ix with Some t => nl ++ [58] ++ t | None => nl end in
+  let pth := match i_p ix with Some p => 47 :: p | None => [] end in
+  urlunsplit {| scheme := sch; netloc := nl; path := pth; query := oget (i_q ix); fragment := oget (i_f ix) |}.
+
+Definition lru_to_url_stems (stems : list str) : res str :=
+  let* ix := index_stems stems lidx0 in Ok (url_of_index ix).
 
 Definition lru_to_url (lru : str) : res str := lru_to_url_stems (unserialize_lru lru).
 
